@@ -369,6 +369,13 @@ def c03(ctx):
             dict(configs="CfgC03two", conns=2, f1=S("notls", "close"), tlsr=S("proceed"), certs=S("valid"), f2=S("mech"),
                  authr=S("success", "failure", "close"), f3=S("bm", "close"), resr=S("resumed", "failed", "other", "unknownel", "close"), bindr=S("result", "error", "close"),
                  sessr=S("result"), enr=S("enabled", "failed", "close"))]
+    # every reply to <auth/> - also well-formed elements that are no answer to it - for both credential kinds
+    gens.append(dict(configs="CfgC03tok", conns=1, f1=S("notls"), tlsr=S("proceed"), certs=S("valid"), f2=S("mech"),
+                     authr=S("success", "successdata", "failure", "failuretext", "other", "stanza", "features", "smnonza", "garbage", "close"),
+                     f3=S("b", "bm", "close"), resr=S("resumed"), bindr=S("result", "error", "close"), sessr=S("result"), enr=S("enabled", "failed"),
+                     mechs="MechBoth"))
+    gens.append(dict(configs="CfgC03two", conns=1, f1=S("notls"), tlsr=S("proceed"), certs=S("valid"), f2=S("mech"),
+                     authr=S("stanza", "features", "smnonza"), f3=S("b"), resr=S("resumed"), bindr=S("result"), sessr=S("result"), enr=S("enabled")))
     if not q:
         # three attempts on one client object, failures in between; optional legacy session with and without stream management
         gens.append(dict(configs="CfgC03two", conns=3, f1=S("notls", "close"), tlsr=S("proceed"), certs=S("valid"), f2=S("mech"),
